@@ -372,6 +372,12 @@ pub fn concretize_map(t: &str, am: &AbsMap, ascii: bool) -> MapSpec {
   let nsrc = am.nsrc as usize;
   let mut sources: Vec<String> =
     (0..nsrc).map(|i| format!("s{}.js", (am.src_base as usize + i) % 5)).collect();
+  // now and then a name of another shape: absolute, with directories, a URL, or empty
+  if am.src_base == 3 && am.root % 2 == 1 {
+    let odd = ["/abs/s.js", "dir/sub/s.js", "http://h/s.js", "../up.js", ""];
+    let k = (am.nnames as usize + nsrc) % odd.len();
+    sources[0] = odd[k].to_string();
+  }
   // wild maps: now and then the same file is listed twice
   if am.wild && am.dup_names && nsrc >= 2 {
     let first = sources[0].clone();
@@ -544,7 +550,7 @@ pub fn concretize_map(t: &str, am: &AbsMap, ascii: bool) -> MapSpec {
 
 // ----------------------------------------------------------------------- trees
 
-fn leaf(cfg: GenCfg) -> BoxedStrategy<Spec> {
+pub fn leaf(cfg: GenCfg) -> BoxedStrategy<Spec> {
   let t = text(cfg.ascii, cfg.max_tokens);
   let mut alts: Vec<(u32, BoxedStrategy<Spec>)> = vec![
     (2, t.clone().prop_map(Spec::Raw).boxed()),
@@ -657,7 +663,7 @@ pub fn tree(cfg: GenCfg) -> BoxedStrategy<Spec> {
   l.prop_recursive(cfg.depth, 16, cfg.max_children as u32, move |inner| {
     let mut alts: Vec<(u32, BoxedStrategy<Spec>)> = vec![(
       4,
-      (0u8..4u8, vec(inner.clone(), 0..=cfg.max_children))
+      (0u8..5u8, vec(inner.clone(), 0..=cfg.max_children))
         .prop_map(|(how, children)| Spec::Concat { how, children })
         .boxed(),
     )];
